@@ -85,6 +85,8 @@ func c01Run(f []string) string {
 		return flagsRun(f)
 	case "filtern":
 		return filterRun(f)
+	case "pipex":
+		return pipexRun(f)
 	}
 	if strings.HasPrefix(f[0], "pmut") {
 		return "rejected" // the harness damaged this log itself: no run of the real code produces it
@@ -100,7 +102,8 @@ func c01Gen(r *Rand, tier string) []string {
 	out = append(out, pipeTraceGen(r, tier)...)
 	out = append(out, pipeMutGen(r, tier)...)
 	out = append(out, trimGen(NewRand(r.U64()), tier)...)
-	return append(out, cliGen(NewRand(r.U64()), tier)...)
+	out = append(out, cliGen(NewRand(r.U64()), tier)...)
+	return append(out, pipexGen(NewRand(r.U64()), tier)...)
 }
 
 func c01Stats(cases []string) map[string]int {
@@ -116,6 +119,8 @@ func c01Stats(cases []string) map[string]int {
 			if b := UnHex(strings.Fields(c)[1]); !utf8.Valid(b) {
 				st["trim.invalid-utf8"]++
 			}
+		} else if strings.HasPrefix(c, "pipex ") {
+			pipexStats(st, c)
 		} else if f0 := strings.Fields(c)[0]; f0 == "summary" || f0 == "hui" || f0 == "flags" || f0 == "filtern" {
 			cliStats(st, c)
 		} else {
